@@ -934,8 +934,11 @@ CORPUS = [
     # F15f: dates
     [('seq', [('i', 1)]), ('mctor', [(('t', (2000, 1, 1, None)), 0), (('t', (2000, 1, 1, 0)), 0)]),
      ('mctor', [(('t', (2000, 1, 1, None)), 0)]), ('mcontains', 2, ('t', (2000, 1, 1, 0))),
-     ('mget', 2, ('t', (2000, 1, 1, 0))), ('mctor', [(('t', (2000, 12, 31, -720)), 0), (('t', (2001, 1, 1, 720)), 0)]),
-     ('mctor', [(('t', (2000, 1, 2, 840)), 0), (('t', (2000, 1, 1, -600)), 0)])],
+     ('mget', 2, ('t', (2000, 1, 1, 0)))],
+    # F15p: the same instant with timezones in two lexical years is one key (hash by instant)
+    [('seq', [('i', 1)]), ('mctor', [(('t', (2000, 12, 31, -720)), 0), (('t', (2001, 1, 1, 720)), 0)]),
+     ('mctor', [(('t', (2000, 1, 2, 840)), 0), (('t', (2000, 1, 1, -600)), 0)]), ('mentry', ('t', (2000, 12, 31, -720)), 0),
+     ('mget', 3, ('t', (2001, 1, 1, 720))), ('mcontains', 3, ('t', (2001, 1, 1, 720))), ('mput', 3, ('t', (2001, 1, 1, 720)), 0)],
     # array bounds
     [('seq', [('i', 1)]), ('seq', [('i', 2), ('i', 3)]), ('seq', []), ('asquare', [0, 1, 2]), ('aget', 3, 0),
      ('aget', 3, 3), ('aget', 3, 4), ('asub', 3, 4, None), ('asub', 3, 5, None), ('asub', 3, 2, 3), ('asub', 3, 5, -1),
@@ -961,6 +964,9 @@ CORPUS = [
      ('mctor', [(('r', ('dayTimeDuration', 'PT0S')), 0), (('r', ('yearMonthDuration', 'P0M')), 0)]),
      ('mcontains', 1, ('y', 'AP8=')), ('mget', 1, ('y', 'AP8='))],
     [('seq', [('i', 9007199254740993)]), ('seq', [('f', '9007199254740992')]), ('deq', 0, 1)],
+    # the two empty binaries share a dict slot (same text, same hash); non-empty ones do not
+    [('seq', [('i', 1)]), ('mentry', ('x', ''), 0), ('mget', 1, ('y', '')), ('mentry', ('x', '61'), 0), ('mget', 3, ('y', 'YQ==')),
+     ('mctor', [(('x', ''), 0), (('y', ''), 0)]), ('mctor', [(('x', '61'), 0), (('y', 'YQ=='), 0)])],
     # F15t: a QName key is not the string of its lexical form
     [('seq', [('i', 1)]), ('mctor', [(('q', ('u', 'b', '')), 0)]), ('mremove', 1, [('s', 'b')]), ('mcontains', 1, ('s', 'b')),
      ('mput', 1, ('s', 'b'), 0), ('mfind', 1, ('s', 'b'))],
@@ -1055,6 +1061,7 @@ def compare(run: Run, cases, count=True) -> None:
         if count:
             st.case(line, nontrivial=len(ops) > 1)
             st.count(f'len={min(len(ops), 15) // 5 * 5}+')
+        spec_dead = False
         for k, ((ms, ss, ok, triples), (istat, iraw, isrt, lazy)) in enumerate(zip(blocks, impl)):
             op = ops[k]
             prefix = {'ops': [op_xpath(o) for o in ops[:k + 1]], 'line': line_of(ops[:k + 1]),
@@ -1076,12 +1083,17 @@ def compare(run: Run, cases, count=True) -> None:
             s_s = ss + ' ' + ' '.join(t[2] for t in triples)
             m_s = ms + ' ' + ' '.join(t[1] for t in triples)
             stop = False
-            if i_s != s_s:
+            if i_s != s_s and not spec_dead:
                 j = first_diff(isrt, [t[2] for t in triples]) if istat == ss else None
                 what = ('result/status of the new value' if j is None or j == k else
                         f'value $v{j} created earlier changed (in-place mutation)')
                 run.disagree(Disagreement(prefix, i_s, m_s, spec=s_s, what=what, site=site, tags=tags))
-                stop = True
+                if tags:
+                    # a listed finding: from here on the spec run has a different state; the rest of the
+                    # history is still compared with the model (which mirrors the code)
+                    spec_dead = True
+                else:
+                    stop = True
             if lazy != 'ok':
                 run.disagree(Disagreement(prefix, 'token-api: ' + lazy, None, spec='token-api: same as evaluate()',
                                           what='constructor token keys()/items()/call vs evaluate()',
